@@ -3,6 +3,7 @@ import TypifyModel.Proofs.C01Findings
 import TypifyModel.Proofs.Dispatch
 import TypifyModel.Proofs.DispatchFuel
 import TypifyModel.Proofs.DispatchSourceAll
+import TypifyModel.Proofs.DispatchFragmentSource
 open TypifyModel.C01
 #print axioms wf_compiles
 #print axioms wf_unique_items
@@ -37,6 +38,7 @@ open TypifyModel.C01
 #print axioms TypifyModel.Dispatch.source_arms_as_read
 #print axioms TypifyModel.Dispatch.typed_arms_agree
 #print axioms TypifyModel.Dispatch.source_first_match
+#print axioms TypifyModel.Dispatch.fragment_source_arm
 #print axioms TypifyModel.Dispatch.typed_arms_callees
 #print axioms TypifyModel.Dispatch.first_arm_nullable
 #print axioms TypifyModel.Dispatch.rewrite_arms_callees
